@@ -19,19 +19,25 @@ CFG = {
         ("udp", dict(Socks='{"udp"}', Lites="{FALSE, TRUE}",
                      UserAlpha='{"ok", "missing", "wrong"}',
                      MiAlpha='{"ok", "missing", "wrongKey", "remoteKey", "garbled"}',
-                     FpAlpha='{"ok", "none"}')),
+                     FpAlpha='{"ok", "none"}'), (300, 8)),
+        # shared single-port UDP socket: the demux in front of the agent adds routing state (9x the states)
+        ("mux", dict(Socks='{"mux"}', Lites="{FALSE}",
+                     UserAlpha='{"ok", "missing", "wrong"}',
+                     MiAlpha='{"ok", "missing", "wrongKey"}',
+                     FpAlpha='{"ok"}'), (100, 8)),
     ],
     "thorough": [
         ("udp-fine", dict(Socks='{"udp"}', Lites="{FALSE, TRUE}",
                           UserAlpha='{"ok", "missing", "wrong", "swapped", "prefix", "nocolon", "empty"}',
                           MiAlpha='{"ok", "missing", "wrongKey", "remoteKey", "emptyKey", "ufragKey", "garbled", '
                                   '"garbledBody", "truncated"}',
-                          FpAlpha='{"ok", "none"}')),
+                          FpAlpha='{"ok", "none"}'), (3000, 12)),
+        ("mux-fine", dict(Socks='{"mux"}', Lites="{FALSE, TRUE}",
+                          UserAlpha='{"ok", "missing", "wrong", "swapped", "nocolon"}',
+                          MiAlpha='{"ok", "missing", "wrongKey", "remoteKey", "garbled"}',
+                          FpAlpha='{"ok", "none"}'), (1000, 12)),
     ],
 }
-
-
-SIM = {"quick": (300, 8), "thorough": (4000, 12)}
 
 
 def write_cfg(path, c, emit, deviations="{}"):
@@ -105,7 +111,7 @@ def run(tier):
     total = 0
     nontrivial = set()
     exhaustive = True
-    for label, consts in CFG[tier]:
+    for label, consts, (nsim, depth) in CFG[tier]:
         cfg = os.path.join(vlib.SPEC, f"MC_IceAgent_{tier}.gen.cfg")
         write_cfg(cfg, consts, emit=True)
         edges = os.path.join(ck.dir, f"edges_{tier}_{label}.ndjson")
@@ -135,7 +141,6 @@ def run(tier):
         os.remove(edges)
         # G-sim: random behaviours with their real, unmerged histories (inert inputs stay in the prefix), every
         # out-edge of every visited state: catches implementation state that the model state does not determine
-        nsim, depth = SIM[tier]
         cfg = os.path.join(vlib.SPEC, f"MC_IceAgent_{tier}_sim.gen.cfg")
         write_cfg(cfg, consts, emit=True)
         edges = os.path.join(ck.dir, f"edges_{tier}_{label}_sim.ndjson")
